@@ -8,6 +8,11 @@ HOOK_COMMITS = ["204cfe3", "2edc694", "e1d8638"]
 
 # id -> (category, technique, level text, level note, design ref)
 CHECKS = {
+ "C16": ("exploration",
+         "runtime oracle: every aggregation calculator of real searches compared with direct computation over the reference model's matched documents, across request variants",
+         "Generated aggregation trees (metrics, cardinality, quantiles, terms, numeric/date ranges, nested to depth 2, several aggregations per field) on generated corpora and queries are computed by the real collectors under 8 request variants (n from 0 to 1000, from, three sort orders, search-after, all-matches collector) and each calculator is compared with direct counting over the model's match set. Held on the inputs explored.",
+         "Trusts: the reference evaluator for the match set; HyperLogLog insertion-order independence (checked in the design phase); float tolerance 1e-9. Terms ties and multi-valued range counts judged only as far as the property fixes them.",
+         "DESIGN.md §4 C16"),
  "C09": ("exploration",
          "differential runtime oracle: TopN(n, from, sort) and After/Before page chains of the real collectors against the complete match list ordered by a reference comparator over model values",
          "For generated corpora, queries, sort orders (<= 3 keys, score/text/numeric/date, asc/desc, missing first/last) and (n, from) on both sides of the slice/heap switch, the result count and the pre-allocation cap, the returned ids must equal elements [from, from+n) of the reference ranking; After and Before chains under a total order must visit every match once in order for all page sizes, with fresh and with re-used sort order objects. Held on the inputs explored.",
